@@ -84,6 +84,7 @@ def run_mutant(job):
     open(p, "w").write("\n".join(lines))
     rec = {"id": k, "file": fname, "line": lineno + 1, "mutation": desc, "old": old.strip(), "new": newline.strip()}
     b = os.path.join(mrepo, "_build")
+    shutil.rmtree(b, ignore_errors=True)      # (rsync restores sources with their old mtime: an incremental build would keep stale objects)
     r = sh(["cmake", "-G", "Ninja", "-S", mrepo, "-B", b, "-DCMAKE_BUILD_TYPE=Debug"])
     r = sh(["cmake", "--build", b, "-j3"])
     if r.returncode != 0:
